@@ -4,7 +4,8 @@
    (TlsfStep / TlsfStep2 / TlsfProps, LinearStep / LinearInv) through their step interfaces only. *)
 From Coq Require Import ZArith NArith List Bool Lia.
 From Arsenal Require Util Bits Gran Tlsf TlsfGeom TlsfInv1 TlsfFree TlsfStep TlsfProps TlsfInv2 TlsfStep2.
-From Arsenal Require Linear LinearInv LinearAlloc LinearStep.
+From Arsenal Require Linear LinearInv LinearAlloc LinearStep LinearFree.
+From Arsenal Require TlsfAlloc.
 From Arsenal Require Import VamDev VamBlockList.
 Import ListNotations.
 Open Scope Z_scope.
@@ -231,4 +232,61 @@ Proof.
     destruct (TlsfProps.live_in_chain _ _ Ha) as (Hc & Hf).
     rewrite (TlsfProps.find_blk_unique _ _ _ Hch Hc), Hf. reflexivity.
   - apply in_map_iff in Hin. destruct Hin as (x & <- & Hx). cbn. unfold Linear.allocation_offset. f_equal. lia.
+Qed.
+
+(* ---------------------------------------------------------------- the granularity of a block's metadata never changes *)
+
+Definition meta_g (mt : meta) : Z :=
+  match mt with MTlsf t => Gran.g_g (Tlsf.t_gran t) | MLin l => Linear.l_gran l end.
+
+Lemma gran_init_g h gr size : Gran.g_g (Gran.gran_init h gr size) = gr.
+Proof. unfold Gran.gran_init. destruct (Gran.enabled _); reflexivity. Qed.
+
+Lemma meta_init_g algo gr size : meta_g (meta_init algo gr size) = gr.
+Proof. unfold meta_init. destruct (algo =? 0); cbn; [apply gran_init_g|reflexivity]. Qed.
+
+Lemma meta_request_g mt size align upper sub strat mt' rq :
+  MInv mt -> Bits.pow2 align ->
+  meta_create_request mt size align upper sub strat = MGranted mt' rq -> meta_g mt' = meta_g mt.
+Proof.
+  intros HI Hal H. destruct mt as [t|l]; cbn in *.
+  - destruct (Tlsf.create_request t size align upper sub strat MAXINT) as [t1 r| | |] eqn:E; try discriminate.
+    injection H as <- <-. destruct HI as [[Hinv Hpg] _].
+    destruct (TlsfStep.create_request_granted _ _ _ _ _ _ _ _ _ E) as (Hs1 & _ & Hgr).
+    destruct (TlsfStep.granted_fits _ _ _ _ _ _ _ Hpg Hal Hs1 Hgr) as ((_ & _ & _ & Hg & _) & _). cbn. rewrite Hg. reflexivity.
+  - destruct (Linear.create_request l size align upper sub strat MAXINT) as [r| | |]; try discriminate.
+    injection H as <- <-. reflexivity.
+Qed.
+
+Lemma meta_alloc_g mt size align upper sub strat mt1 rq slot mt2 h :
+  MInv mt -> Bits.pow2 align ->
+  meta_create_request mt size align upper sub strat = MGranted mt1 rq ->
+  meta_alloc mt1 rq sub slot size align = OK (mt2, h) -> meta_g mt2 = meta_g mt.
+Proof.
+  intros HI Hal H Ha. rewrite <- (meta_request_g _ _ _ _ _ _ _ _ HI Hal H).
+  destruct mt as [t|l]; cbn in H.
+  - destruct (Tlsf.create_request t size align upper sub strat MAXINT) as [t1 r| | |]; try discriminate.
+    injection H as <- <-. cbn [meta_alloc] in Ha.
+    destruct (Tlsf.alloc t1 r (Some slot) size align) as [t2 h2| |] eqn:E; try discriminate. injection Ha as <- <-.
+    cbn. eapply TlsfAlloc.alloc_gran; eauto.
+  - destruct (Linear.create_request l size align upper sub strat MAXINT) as [r| | |] eqn:E; try discriminate.
+    injection H as <- <-. cbn [meta_alloc] in Ha.
+    pose proof (LinearStep.step_preserves l (Linear.OAlloc size align sub strat upper MAXINT (Some slot)) HI Hal) as P.
+    cbn [Linear.step] in P. rewrite E in P.
+    destruct (Linear.alloc l r sub (Some slot) size align) as [l'| |]; try discriminate. injection Ha as <- <-.
+    cbn [fst snd] in P. destruct P as (_ & _ & (_ & Hg & _) & _). cbn. exact Hg.
+Qed.
+
+Lemma meta_free_g mt h mt' :
+  MInv mt -> (exists rg, In rg (meta_live mt) /\ rg_handle rg = h) -> meta_free mt h = OK mt' -> meta_g mt' = meta_g mt.
+Proof.
+  intros HI (rg & Hin & Hh) H. destruct mt as [t|l]; cbn [meta_free meta_live] in *.
+  - destruct (Tlsf.tlsf_free t h) as [t1| |] eqn:E; try discriminate. injection H as <-.
+    destruct HI as [[Hinv _] _]. destruct (TlsfFree.tlsf_free_inv1 _ _ _ Hinv E) as (_ & _ & _ & (b0 & g' & _ & Hfr & Hgg) & _).
+    cbn. rewrite Hgg. eapply TlsfStep.free_regions_g; eauto.
+  - apply in_map_iff in Hin. destruct Hin as (x & <- & Hx). cbn in Hh. subst h.
+    assert (Hopok : LinearStep.op_ok l (Linear.OFree (Linear.s_off x + 1))) by (cbn; eauto).
+    pose proof (LinearStep.step_preserves l (Linear.OFree (Linear.s_off x + 1)) HI Hopok) as P. cbn [Linear.step] in P.
+    destruct (Linear.lin_free l (Linear.s_off x + 1)) as [l'| |]; try discriminate. injection H as <-.
+    cbn [fst snd] in P. destruct P as (_ & _ & (_ & Hg & _) & _). cbn. exact Hg.
 Qed.
